@@ -57,4 +57,30 @@ def commuteGuard (kids : List Node) (f1 t1 : Nat) (s1 : Slice) (f2 t2 : Nat) (s2
 def aroundShape (f t gf gt : Nat) (sl : Slice) (ins : Nat) : Bool :=
   sl.wf && decide ((ins : Int) ≤ sl.size) && decide (f ≤ gf) && decide (gf ≤ gt) && decide (gt ≤ t)
 
+/-- the replace step (`f1 … t1`, at most `e1` levels of descent) descends into an element node that lies
+    entirely inside the window `[gf, gt]` (offsets truncated at 0 while children are skipped: `gf = 0` = "the
+    window begins at or before this node") -/
+def insideGap : List Node → (gf gt f1 t1 e1 : Nat) → Bool
+  | [], _, _, _, _, _ => false
+  | n :: ns, gf, gt, f1, t1, e1 =>
+    if f1 = 0 then false
+    else if n.size ≤ f1 then insideGap ns (gf - n.size) (gt - n.size) (f1 - n.size) (t1 - n.size) e1
+    else match n with
+      | .elem _ _ _ kids =>
+        if e1 ≠ 0 && t1 < n.size then
+          if gf = 0 && n.size ≤ gt then true
+          else insideGap kids (gf - 1) (gt - 1) (f1 - 1) (t1 - 1) (e1 - 1)
+        else false
+      | _ => false
+
+/-- **the guard for a step strictly inside the kept gap of a replace-around step** (`gapFrom < f1 ≤ t1 < gapTo`):
+    the step (a replace step, or `(from, to, slice)` of a replace-around step) happens entirely inside an
+    element node of the gap content, so the gap stays a closed slice with the same top-level node types and
+    the node it is moved into by the replace-around step sees the same children.  Excludes a split / an open
+    slice that closes the gap's parent (the gap is then no longer a closed slice: the rebased replace-around
+    step fails) and insertions at the gap's own level (the new parent may not accept them).  Tied: driver op
+    `gapGuard`; oracle "guard ⇒ the real code's four applications succeed and converge". -/
+def gapGuard (kids : List Node) (gf gt f1 t1 : Nat) (s1 : Slice) : Bool :=
+  insideGap kids gf gt f1 t1 (depthAt kids f1 - s1.openStart)
+
 end PM
